@@ -484,17 +484,20 @@ def _shard_sz(shard, ctx):
             fill = {'n_rdm': n_rdm, 'L': L, 'key': 0, 'style': style}
             masks = [[]] + ([[1, 4]] if n_cond == 5 else [])
             for mask in masks:
-                for m in REFD:
+                # (pooling ranks costs the library 36 rankdata calls per fold: the rank measures once)
+                for m in (REFD if (not len(mask) and n_cond == 4) else ['cosine', 'corr']):
                     run_case({'kind': 'boot', 'fill': fill, 'n_cond': n_cond, 'mask': mask, 'labels': labels,
                               'method': m, 'cands': None}, ctx)
             # the training set of every fold is exactly the remaining groups; its pooled RDM does not move
             # when the left-out group's data change
             run_case({'kind': 'leak', 'fill': fill, 'n_cond': n_cond, 'mask': [], 'labels': labels,
-                      'method': PLAIN[shard['struct']], 'each_entry': False}, ctx)
+                      'method': PLAIN[(shard['struct'] + n_cond) % 2], 'each_entry': False, 'group_stride': 5}, ctx)
             for gen, params in [('loo_rdm', {}), ('k_fold_rdm', {'k_rdm': 2}), ('k_fold_rdm', {'k_rdm': 3}),
                                 ('k_fold_rdm', {'k_rdm': 7})]:
                 for mi, m in enumerate(PLAIN + ['tau-a']):
                     if gen == 'k_fold_rdm' and mi != (params['k_rdm'] + n_cond) % 4 and not thorough:
+                        continue
+                    if gen == 'loo_rdm' and mi >= 2 and n_cond == 5 and not thorough:
                         continue
                     case = {'kind': 'cv', 'gen': gen, 'fill': fill, 'n_cond': n_cond, 'mask': [],
                             'labels': labels, 'params': params, 'random': False, 'method': m,
@@ -1362,7 +1365,9 @@ def _case_leak(case, ctx):
         pub0 = _public_predictions(x0, labels, method)
         rec0 = {} if case.get('public_only') else _recorded_predictions(x0, labels, method)
         all_rids = set(range(n_rdm))
-        for g, members in groups.items():
+        for gi, (g, members) in enumerate(groups.items()):
+            if gi % case.get('group_stride', 1):
+                continue
             left = tuple(sorted(members))
             rest = tuple(sorted(all_rids - set(members)))
             sub = dict(case, group=list(left))
